@@ -270,6 +270,35 @@ def F13():
     return ["System('t', Source('X'), rail='X') accepted: rails=%r" % s._g.attrs["rails"]]
 
 
+def F14():
+    """C16/C12: phases() takes the Domain from the last source in node order"""
+    import os, tempfile
+    s = System("t", Source("S1", vo=5.0))
+    s.add_source(Source("S2", vo=4.0))
+    s.add_comp("S1", comp=RLoss("a", rs=0.1))
+    s.add_comp("S2", comp=RLoss("b", rs=0.1))
+    s.add_comp(["a", "b"], comp=PMux("m"))
+    s.add_comp("m", comp=ILoad("lm", ii=0.1))
+    s.set_sys_phases({"p1": 1, "p2": 2})
+    f = tempfile.mktemp(suffix=".json")
+    s.save(f)
+    s2 = System.from_file(f)
+    os.remove(f)
+    d1 = dict(zip(s.phases()["Component"], s.phases()["Domain"]))
+    d2 = dict(zip(s2.phases()["Component"], s2.phases()["Domain"]))
+    return [] if d1 == d2 else ["phases() Domain of the mux subtree: built %r, reloaded %r" % (d1["m"], d2["m"])]
+
+
+def F15():
+    """C16: set_comp_phases(<rail>) files the configuration under the rail name"""
+    s = System("t", Source("V", vo=12.0))
+    s.set_sys_phases({"sleep": 10, "run": 1})
+    s.add_comp("V", comp=Converter("C", vo=5.0, eff=0.9), rail="R5")
+    s.set_comp_phases("R5", ["run"])
+    extra = sorted(set(s._g.attrs["phase_conf"]) - set(s._g.attrs["nodes"]))
+    return ["phase registry holds keys that are no components: %r" % extra] if extra else []
+
+
 ALL = {k: v for k, v in globals().items() if k[0] == "F" and k[1:].isdigit()}
 if __name__ == "__main__":
     rc = 0
